@@ -273,6 +273,46 @@ func ruleRestorePasses(c *eng.Ctx) {
 	c.Floor(rule, 4, 4)
 }
 
+// ruleMetadataOrder (C01): the order in which metadata is applied matters: changing the owner
+// clears setuid/setgid bits and drops the security.capability extended attribute on Linux, and
+// a read-only mode blocks later changes on Windows. So ownership comes first, the mode last.
+func ruleMetadataOrder(c *eng.Ctx) {
+	const rule = "metadata-order"
+	fn := c.NeedFn(rule, pkgFS+".nodeRestoreMetadata")
+	if fn == nil {
+		return
+	}
+	one := func(name string) ssa.CallInstruction {
+		cs := c.P.CallsTo(fn, pkgFS+"."+name)
+		if len(cs) != 1 {
+			c.Unk(rule, "nodeRestoreMetadata:"+name, fn.Pos(), "expected one call of %s, found %d", name, len(cs))
+			return nil
+		}
+		return cs[0]
+	}
+	chown, xattr, times, chmod := one("lchown"), one("nodeRestoreExtendedAttributes"), one("nodeRestoreTimestamps"), one("chmod")
+	if chown == nil || xattr == nil || times == nil || chmod == nil {
+		return
+	}
+	c.MustPass(rule, "nodeRestoreMetadata:owner-before-xattrs", eng.Entry(fn), xattr.(ssa.Instruction), eng.CallCut(chown), "lchown ran before the extended attributes are written (a later chown would drop security.capability)")
+	c.MustPass(rule, "nodeRestoreMetadata:owner-before-mode", eng.Entry(fn), chmod.(ssa.Instruction), eng.CallCut(chown), "lchown ran before chmod (a later chown would clear setuid/setgid)")
+	c.MustPass(rule, "nodeRestoreMetadata:xattrs-before-mode", eng.Entry(fn), chmod.(ssa.Instruction), eng.CallCut(xattr), "extended attributes are written before a possibly read-only mode is set")
+	c.MustPass(rule, "nodeRestoreMetadata:times-before-mode", eng.Entry(fn), chmod.(ssa.Instruction), eng.CallCut(times), "timestamps are set before a possibly read-only mode is set")
+	// every step runs even if an earlier one failed: each is reachable from the failure edge of its predecessor
+	for _, pair := range [][2]ssa.CallInstruction{{chown, xattr}, {xattr, times}, {times, chmod}} {
+		okRun := true
+		for _, e := range eng.FailureEdges(pair[0]) {
+			if eng.FindPath(eng.EdgeStart(fn, e), pair[1].(ssa.Instruction), nil) == nil {
+				okRun = false
+			}
+		}
+		a, b := c.P.CalleeName(pair[0]), c.P.CalleeName(pair[1])
+		c.Check(okRun, rule, "nodeRestoreMetadata:"+b[strings.LastIndex(b, ".")+1:]+"-runs-after-failed-"+a[strings.LastIndex(a, ".")+1:], pair[1].Pos(), "a failure of %s does not skip %s (as much metadata as possible is restored)", a[strings.LastIndex(a, ".")+1:], b[strings.LastIndex(b, ".")+1:])
+	}
+	// the first error is what is reported
+	c.Floor(rule, 7, 7)
+}
+
 // visitorOf reports whether lit is one of the closures stored in the treeVisitor literal
 // passed to the traverseTree call.
 func visitorOf(c *eng.Ctx, call ssa.CallInstruction, lit *ssa.Function) bool {
